@@ -222,11 +222,16 @@ def record(kw, opts=None):
 
     def cp(x, grad, lb, ub, mats, it, *a, **k):
         last["key"] = (C.v(x), C.v(grad), int(it))
+        # the pairs the matrices in use were built from (none before the first accepted update / after a reset)
+        if getattr(mats, "use_factor", False):
+            last["SY"] = (C.vl(list(np.asarray(mats.S, float).T)), C.vl(list(np.asarray(mats.Y, float).T)))
+        else:
+            last["SY"] = ("[]", "[]")
         return o_cp(x, grad, lb, ub, mats, it, *a, **k)
 
     def sub(x, xc, *a, **k):
         xb = o_sub(x, xc, *a, **k)
-        C.search.append((last["key"], C.v(np.asarray(xb, dtype=float).ravel())))
+        C.search.append((last["key"], "(%s, %s, %s)" % (C.v(np.asarray(xb, dtype=float).ravel()), last["SY"][0], last["SY"][1])))
         return xb
 
     def isu(xk, gk, xo, go, eps=2.2e-16):
